@@ -2,6 +2,7 @@ package checks
 
 import (
 	"fmt"
+	"strings"
 	"time"
 
 	"github.com/huderlem/poryscript/parser"
@@ -151,7 +152,42 @@ func runC11(tier string) int {
 		}
 		c11Eval(r, &model.Script{Name: "S", Body: body}, copts, fmt.Sprintf("switch operand kind=%d ctx=%d", kind, ctx), true)
 	})
-	if !done || !swDone {
+	// AutoVar statements inside poryswitch cases (colon and brace form, selected directly and through '_').
+	pswDone := r.Parallel(uint64(numAutoKinds*4*4), func(w int, idx uint64) {
+		kind, stmtKind, form := int(idx)/16, int(idx)/4%4, int(idx)%4
+		lf := autoLeaf(kind, 0, 1)
+		cond := &model.Cond{Kind: model.CLeaf, Leaf: autoLeaf(kind, 3, 1)}
+		var st model.Stmt
+		switch stmtKind {
+		case 0:
+			lf.Src = lf.AutoSrc
+			st = model.Stmt{Kind: model.SSwitch, Operand: lf, Cases: []model.Case{{Val: 1, Body: []model.Stmt{mcmd("a")}}, {Val: 2}, {Default: true, Body: []model.Stmt{mcmd("d")}}}}
+		case 1:
+			st = model.Stmt{Kind: model.SIf, Arms: []model.Arm{{Cond: cond, Body: []model.Stmt{mcmd("t")}}}, HasElse: true, Else: []model.Stmt{mcmd("f")}}
+		case 2:
+			st = model.Stmt{Kind: model.SWhile, Cond: cond, Body: []model.Stmt{mcmd("t")}}
+		default:
+			st = model.Stmt{Kind: model.SDoWhile, Cond: cond, Body: []model.Stmt{mcmd("t")}}
+		}
+		inner := strings.TrimSpace(model.PrintBody([]model.Stmt{st}, 3))
+		var psw string
+		switch form {
+		case 0:
+			psw = "\tporyswitch(PV) {\n\t\tSEL: " + inner + "\n\t\t_: other\n\t}\n"
+		case 1:
+			psw = "\tporyswitch(PV) {\n\t\tSEL {\n\t\t\t" + inner + "\n\t\t}\n\t\t_ { other }\n\t}\n"
+		case 2:
+			psw = "\tporyswitch(PV) {\n\t\tNOPE: other\n\t\t_: " + inner + "\n\t}\n"
+		default:
+			psw = "\tporyswitch(PV) {\n\t\tNOPE { other }\n\t\t_ {\n\t\t\t" + inner + "\n\t\t}\n\t}\n"
+		}
+		sc := &model.Script{Name: "S", Body: []model.Stmt{mcmd("p"), st, mcmd("z")}}
+		src := "script S {\n\tp\n" + psw + "\tz\n}\n"
+		o := *copts
+		o.Switches = map[string]string{"PV": "SEL"}
+		c11EvalSrc(r, sc, src, &o, fmt.Sprintf("AutoVar statement kind=%d stmt=%d inside poryswitch form=%d", kind, stmtKind, form), true)
+	})
+	if !done || !swDone || !pswDone {
 		r.NotExhaustive("job list not completed")
 	}
 	r.Set("max_leaves", maxK)
@@ -160,12 +196,17 @@ func runC11(tier string) int {
 	r.Assume("command config: fixed var_name, var_name_arg_position 0 and 1, a command without argument list, a constant argument, an inline text argument",
 		"the preamble is an observable command whose text is the statement rendering 'name arg, arg' (C10 checks that rendering rule separately)")
 	return r.Finish(r.Get("evaluations"), r.Get("nontrivial"),
-		"C02's expression trees with 1-2 leaves replaced by AutoVar leaves (6 command kinds x 9 comparison forms, rotated for k>=3) x decorations x 7 condition positions x optimize on/off, plus AutoVar switch operands in 4 contexts; lockstep exploration (the preamble command, each operand read and each body command are observable events); non-trivial = >= 2 leaves or a switch")
+		"C02's expression trees with 1-2 leaves replaced by AutoVar leaves (6 command kinds x 9 comparison forms, rotated for k>=3) x decorations x 10 condition positions x optimize on/off, plus AutoVar switch operands in 4 contexts, plus AutoVar switch / if / while / do...while statements inside poryswitch cases (colon and brace form, selected directly and through '_'); lockstep exploration (the preamble command, each operand read and each body command are observable events); non-trivial = >= 2 leaves or a switch")
 }
 
 func c11Eval(r *harness.Run, sc *model.Script, copts *comp.Opts, desc string, nontrivial bool) {
+	c11EvalSrc(r, sc, model.Print([]*model.Script{sc}), copts, desc, nontrivial)
+}
+
+// c11EvalSrc: the model script sc is the meaning of the (possibly hand-wrapped) source text.
+func c11EvalSrc(r *harness.Run, sc *model.Script, text string, copts *comp.Opts, desc string, nontrivial bool) {
 	scripts := []*model.Script{sc}
-	src := "const KONST = 7 + 1\nconst VAR_RES2 = VAR_OTHER\nconst VAR_K = VAR_OTHER2\n" + model.Print(scripts)
+	src := "const KONST = 7 + 1\nconst VAR_RES2 = VAR_OTHER\nconst VAR_K = VAR_OTHER2\n" + text
 	for _, opt := range []bool{true, false} {
 		ok, rej, st, v, out := checkScripts(scripts, src, opt, machine.Lockstep, copts)
 		if !ok {
